@@ -814,6 +814,11 @@ Proof.
     as [Hpmin [Hpmax [Hkv Hs]]].
   set (s := match find (fun kv0 : Z * Q => (avg <=? fst kv0)%Z) (rev (cum_desc NumQ 0 (rev lastm))) with
             | Some kv0 => fst kv0 | None => (mx + 1)%Z end) in *.
+  assert (Hc1 : forall x, x <= 1 -> clamp1 NumQ x = x).
+  { intros x Hx. unfold clamp1, gt. cbn [NumQ n_cmp n_one]. unfold Qcmp_opt.
+    destruct (Qcompare x 1) eqn:Ec; try reflexivity. apply Qgt_alt in Ec. lra. }
+  rewrite (Hc1 pmin) by (rewrite Hpmin; apply PI_ge_le_1; auto).
+  rewrite (Hc1 (snd kv)) by (rewrite Hpmax; apply PI_ge_le_1; auto).
   rewrite Hpmin, Hpmax.
   split. { apply PI_ge_mono; auto. lia. }
   split. { apply PI_ge_nonneg; auto. }
